@@ -59,7 +59,9 @@ ASSUMPTIONS = [
     "an overload group of the stubs without plain definition is generated only for names the runtime container defines (Griffe's stub module has "
     "no member for a bare overload group, so it is not a 'stub-only member'); the `from typing import overload` of the stubs is an ordinary stub-only alias",
     "only the runtime flag of the stub-only member itself is demanded (not of members nested inside a stub-only class)",
-    "runtime modules define each name once, have no overloads of their own; annotations are bare names (expression rendering is C03's subject)",
+    "runtime modules define each name once; a runtime function may declare its own @overload list (then the stubs' list, when they give one, "
+    "replaces it); attributes inside classes may be spelled as properties on either side (both are attributes for Griffe: same-kind pair); "
+    "annotations are bare names (expression rendering is C03's subject)",
     "loading is static (allow_inspection=False) and without resolve_aliases; discovery order is injected by wrapping os.walk / Path.iterdir "
     "(sorted lists m.py before m.pyi, reversed the other way round) and, for -stubs packages, by swapping the two search paths",
     "wildcard-provided members come from p/_impl.py (no __all__, public names, functions/attributes/flat classes) and are disjoint from the "
